@@ -304,3 +304,54 @@ package catalog
 // sync.Once cache fill. JSchema.Example builds a new example from the AST on every call (assumed repeatable).
 //@ extern (*github.com/jsightapi/jsight-schema-core/notations/regex.RSchema).Example(s)
 //@   attr stateful
+
+// Frame of the lazy compilation of a JSight schema (C16): what the cache fill under onceCompile may write. It builds new
+// ExchangeContent trees and writes the schema's cache fields and the string sets; it must not write an ExchangeContent
+// that existed before (in particular not the content of ANOTHER user type: inherited children are copied first).
+// The units are verified for their frame only (attr assumesafe: panics are C01/C04's business).
+//@ extern strings.Split(s, sep)
+//@   attr pure deterministic nopanic
+//@ modset compileMod(e) := allfield(ExchangeJSightSchema, exchangeContent), allfield(StringSet, data), allfield(StringSet, order),
+//@     allelems(string), allmaps(map[string]struct{})
+//@ func (*ExchangeJSightSchema).Compile(e)
+//@   attr trusted
+//@   property C16
+//@   modifies compileMod(e)
+//@   ensures imp(result == nil, e.exchangeContent != nil)
+
+//@ func (*StringSet).has(m, v)
+//@   property C16
+//@   attr assumesafe
+//@   requires m != nil
+//@   modifies nothing
+//@ func (*StringSet).Add(m, v)
+//@   property C16
+//@   attr assumesafe
+//@   requires m != nil
+//@   modifies m.data, m.order, allelems(string), allmaps(map[string]struct{})
+
+//@ func (*ExchangeContent).ObjectProperty(c, k)
+//@   property C16
+//@   attr assumesafe
+//@   requires c != nil
+//@   modifies nothing
+//@ func (*ExchangeContent).Unshift(c, v)
+//@   property C16
+//@   attr assumesafe
+//@   requires c != nil
+//@   modifies[C16] c.Children
+//@ func (*ExchangeContent).ToUsedUserTypes(c, uut)
+//@   property C16
+//@   attr assumesafe
+//@   requires c != nil && uut != nil
+//@   modifies[C16] uut.data, uut.order, allelems(string), allmaps(map[string]struct{})
+//@ func (*ExchangeContent).inheritPropertiesFromUserType(c, uut, userTypeName, catalogUserTypes)
+//@   property C16
+//@   attr assumesafe
+//@   requires uut != nil && catalogUserTypes != nil
+//@   modifies[C16,@inherited-children-are-copies] c.Children, compileMod(0)
+//@ func (*ExchangeContent).processAllOf(c, uut, catalogUserTypes)
+//@   property C16
+//@   attr assumesafe
+//@   requires uut != nil && catalogUserTypes != nil
+//@   modifies[C16,@inherited-children-are-copies] allfield(ExchangeContent, Children), compileMod(0)
